@@ -1404,6 +1404,64 @@ DETAIL["c12_k2_contains_hash_any"] = lambda i, rk, ri: {"template": "{% if l con
                                                        "rendered": [rend(t, {"l": pv(3, i, 0, 0), "r": pv(4, ri, 0, 0) if rk == 0 else pv(3, ri, 0, 0)}) for t in T_CONTAINS],
                                                        "expected": "F (or LiquidTypeError)"}
 
+
+# ---- a parenthesised and/or group used as an operand of a comparison is a boolean like any other: the same comparison with
+# the group's value assigned to a variable first gives the same branch --------------------------------------------------------
+G_VALUES = [None, False, True, 0, 1, 2, "", "x", "true", [], [1], {}, {"a": 1}, 1.0]
+G_OPS = ["==", "!=", "<>", "<", ">", "<=", ">=", "contains"]
+G_FORMS = ["(L or r)", "(L and r)", "(r or L)", "(r and L)", "(not r or L)", "(L or (r and r))"]
+_G_T = {}
+
+
+def group_operand_sweep(fi, oi, side):
+    bad = []
+    for lit in ("false", "true", "nosuch"):
+        group = G_FORMS[fi].replace("L", lit)
+        inner = group[1:-1]
+        cmp_ = ("%s %s v" if side == 0 else "v %s %s").replace("%s %s v", group + " " + G_OPS[oi] + " v") if side == 0 else "v " + G_OPS[oi] + " " + group
+        ref = ("g " + G_OPS[oi] + " v") if side == 0 else ("v " + G_OPS[oi] + " g")
+        key = (cmp_, ref, inner)
+        if key not in _G_T:
+            try:
+                _G_T[key] = (ENV.from_string("{% if " + cmp_ + " %}T{% else %}F{% endif %}|{% unless " + cmp_ + " %}T{% else %}F{% endunless %}|{{ 'T' if " + cmp_ + " else 'F' }}"),
+                             ENV.from_string("{% assign g = false %}{% if " + inner + " %}{% assign g = true %}{% endif %}{% if " + ref + " %}T{% else %}F{% endif %}|"
+                                             "{% unless " + ref + " %}T{% else %}F{% endunless %}|{{ 'T' if " + ref + " else 'F' }}"))
+            except LiquidError:
+                _G_T[key] = None
+        if _G_T[key] is None:
+            continue
+        t, tref = _G_T[key]
+        for r in G_VALUES:
+            for v in G_VALUES:
+                outs = []
+                for tt in (t, tref):
+                    try:
+                        outs.append(tt.render(r=r, v=v))
+                    except LiquidError as e:
+                        outs.append("ERR:" + type(e).__name__)
+                if outs[0] != outs[1]:
+                    bad.append({"condition": cmp_, "r": repr(r), "v": repr(v), "observed": outs[0], "with the group's value in a variable": outs[1]})
+                    if len(bad) > 2:
+                        return bad
+    return bad
+
+
+def c12_group_as_operand(fi: int, oi: int, side: int) -> bool:
+    """
+    pre: 0 <= fi <= 5 and 0 <= oi <= 7 and 0 <= side <= 1
+    post: _
+    """
+    if excluded("c12_group_as_operand", locals()):
+        return True
+    from vf.hx import cint, untraced
+    fi, oi, side = cint(fi, 0, 5), cint(oi, 0, 7), cint(side, 0, 1)
+    return finish(untraced(lambda: not group_operand_sweep(fi, oi, side)))
+
+
+DETAIL["c12_group_as_operand"] = lambda fi, oi, side: {"failing": group_operand_sweep(fi, oi, side)}
+CONDITIONS.append({"fn": "c12_group_as_operand", "quick": 60, "thorough": 120, "sel_only": True,
+                   "bounds": "6 group shapes x 3 literals x 8 comparison operators x both sides x 14 x 14 values; if / unless / ternary"})
+
 ASSUMPTIONS = [
     "template sources are concrete skeletons generated at import (operators, literals, and/or/not/parenthesis shapes); operand values and render data are symbolic",
     "reference table: only false/nil/undefined are falsy; == is by value within a kind (nil, bool, number, string, array, hash, range) and false across kinds (true != 1); "
